@@ -289,6 +289,15 @@ class ZipV:
         self.lists = list(lists)
 
 
+class CompV:
+    """list / dict comprehension over a symbolic collection whose element is a *literal of fresh lists* (`[[] for _ in xs]`,
+    `{k: ([], [[], []]) for k in d}`, `[[x] for x in xs]`): kept python-level until the declared type of its destination
+    is known (materialize), then allocated in bulk: one Skolem function per literal list (seqs.bulk_materialize)"""
+
+    def __init__(self, kind, var, guard, elt, coll):
+        self.kind, self.var, self.guard, self.elt, self.coll = kind, var, guard, elt, coll
+
+
 class ValuesView:
     def __init__(self, d, what):
         self.d, self.what = d, what   # what in values/keys/items
